@@ -28,6 +28,7 @@ import stix2
 import stix2.base
 import stix2.markings
 import stix2.serialization
+import stix2.utils
 import stix2.versioning
 from stix2.serialization import STIXJSONEncoder
 from stix2.utils import STIXdatetime
@@ -66,6 +67,12 @@ def dec(v):
         return d
     if "date" in v:
         return dt.date(*v["date"])
+    if "sdt" in v:
+        # a STIXdatetime as found on another object: a datetime cleaned earlier at the given precision / constraint
+        local, off, prec, cons = v["sdt"]
+        d = EPOCH + local * US
+        d = d.replace(tzinfo=pytz.utc if off == 0 else dt.timezone(dt.timedelta(microseconds=off)))
+        return stix2.utils.parse_into_datetime(d, prec, cons)
     raise ValueError("bad value encoding")
 
 
